@@ -8,6 +8,7 @@ import (
 	"sort"
 	"strings"
 	"time"
+	"unsafe"
 
 	"golang.org/x/crypto/ripemd160"
 	"golang.org/x/crypto/sha3"
@@ -22,6 +23,10 @@ import (
 //   shared : all of them sub-slices of ONE buffer, produced by the repository's own decoder
 //            (blockchain.ReadVarstrList / ReadVarstr31, as the transaction decoder does), followed
 //            by spare capacity
+// The caller's LISTS (the outer [][]byte of the arguments and of the state data) are laid out too: exact capacity in
+// `indep`; in `spare` / `shared` the list is the prefix all[:k] of a longer list whose further entries belong to the
+// caller as well. After every step and after the run the lists (length, every entry, the entries behind them), every
+// item's bytes and the program are compared with their values before the run.
 var Layouts = []string{"indep", "spare", "shared"}
 
 const sentinel = 0xEE
@@ -33,7 +38,43 @@ type buffers struct {
 	backing  [][]byte
 	pristine [][]byte
 	names    []string
+	// the caller's lists themselves (outer [][]byte buffers): the whole backing array of each list,
+	// of which the caller's list is the prefix [:n], with the slice headers it held before the run
+	lists []*outerList
 }
+
+type hdr struct {
+	p    *byte
+	l, c int
+}
+
+type outerList struct {
+	name string
+	full [][]byte // backing array of the list, entries behind the caller's list included
+	n    int      // length of the caller's list
+	was  []hdr
+}
+
+func hdrOf(x []byte) hdr { return hdr{unsafe.SliceData(x), len(x), cap(x)} }
+
+// outer builds the caller's list for the given items. behind > 0: the list is the prefix of a longer
+// list (spare capacity behind it, holding other items the caller owns - `all[:k]`); behind = 0: exact capacity.
+func (b *buffers) outer(name string, items [][]byte, behind int) [][]byte {
+	full := make([][]byte, len(items)+behind)
+	copy(full, items)
+	for i := len(items); i < len(full); i++ {
+		_, f := own([]byte{0x5e, byte(i), 0x5e}, 0)
+		full[i] = f
+		b.track(fmt.Sprintf("item %d behind the %s list", i-len(items), name), f)
+	}
+	ol := &outerList{name: name, full: full, n: len(items)}
+	for _, x := range full {
+		ol.was = append(ol.was, hdrOf(x))
+	}
+	b.lists = append(b.lists, ol)
+	return full[:len(items):len(full)]
+}
+
 
 func (b *buffers) track(name string, full []byte) {
 	b.backing = append(b.backing, full)
@@ -42,6 +83,17 @@ func (b *buffers) track(name string, full []byte) {
 }
 
 func (b *buffers) diff() string {
+	for _, ol := range b.lists {
+		for i, x := range ol.full {
+			if hdrOf(x) != ol.was[i] {
+				where := fmt.Sprintf("entry %d of the caller's %s list (%d entries)", i, ol.name, ol.n)
+				if i >= ol.n {
+					where = fmt.Sprintf("entry %d behind the caller's %s list (%d entries, backing array of %d)", i-ol.n, ol.name, ol.n, len(ol.full))
+				}
+				return fmt.Sprintf("%s was replaced: now %x", where, x)
+			}
+		}
+	}
 	for i := range b.backing {
 		if !bytes.Equal(b.backing[i], b.pristine[i]) {
 			for k := range b.backing[i] {
@@ -84,6 +136,12 @@ func layout(c *Case, kind string) (*buffers, error) {
 		v, f := own(c.Prog, spare)
 		b.prog = v
 		b.track("program", f)
+		behind := 0
+		if kind == "spare" {
+			behind = 3
+		}
+		b.args = b.outer("argument", b.args, behind)
+		b.state = b.outer("state-data", b.state, behind)
 	case "shared":
 		var w bytes.Buffer
 		toList := func(l []Bytes) [][]byte {
@@ -114,6 +172,8 @@ func layout(c *Case, kind string) (*buffers, error) {
 			return nil, err
 		}
 		b.track("shared transaction buffer", full)
+		b.args = b.outer("argument", b.args, 2)
+		b.state = b.outer("state-data", b.state, 2)
 	default:
 		return nil, fmt.Errorf("unknown layout %q", kind)
 	}
@@ -182,6 +242,27 @@ func RunCap(c *Case, kind string, stepCap int) (*Obs, error) {
 	if err != nil {
 		return nil, err
 	}
+	return verifyOnce(c, b, Context(c, b), stepCap)
+}
+
+// RunTwice verifies the SAME context (same caller buffers) twice: the second verification must see
+// exactly what the first one saw (running a program never changes the caller's data).
+func RunTwice(c *Case, kind string) (*Obs, *Obs, error) {
+	b, err := layout(c, kind)
+	if err != nil {
+		return nil, nil, err
+	}
+	x := Context(c, b)
+	o1, err := verifyOnce(c, b, x, StepCap(c.Limit))
+	if err != nil || o1.Hang {
+		return o1, nil, err
+	}
+	o2, err := verifyOnce(c, b, x, StepCap(c.Limit))
+	return o1, o2, err
+}
+
+func verifyOnce(c *Case, b *buffers, x *vm.Context, stepCap int) (*Obs, error) {
+	var err error
 	o := &Obs{}
 	tr := &tracer{cap: stepCap}
 	tr.onStep = func(prev string) {
@@ -191,7 +272,6 @@ func RunCap(c *Case, kind string, stepCap int) (*Obs, error) {
 			}
 		}
 	}
-	x := Context(c, b)
 	type res struct {
 		gas int64
 		err error
@@ -220,6 +300,17 @@ func RunCap(c *Case, kind string, stepCap int) (*Obs, error) {
 	if o.BufDiff == "" {
 		if d := b.diff(); d != "" {
 			o.BufDiff, o.BufAfter = d, tr.last
+		}
+	}
+	// the context still refers to the caller's lists and program
+	if o.BufDiff == "" {
+		switch {
+		case len(x.StateData) != len(b.state) || (len(b.state) > 0 && &x.StateData[0] != &b.state[0]):
+			o.BufDiff, o.BufAfter = "the context's StateData no longer is the caller's list", tr.last
+		case len(x.Arguments) != len(b.args) || (len(b.args) > 0 && &x.Arguments[0] != &b.args[0]):
+			o.BufDiff, o.BufAfter = "the context's Arguments no longer is the caller's list", tr.last
+		case len(x.Code) != len(b.prog):
+			o.BufDiff, o.BufAfter = "the context's Code changed length", tr.last
 		}
 	}
 	o.NonTerm = tr.over
